@@ -5,6 +5,7 @@ import (
 	"os"
 	"path/filepath"
 	"sort"
+	"strconv"
 	"strings"
 
 	"simrt"
@@ -236,6 +237,10 @@ func (r *Run) examineCrashes() {
 		have := map[string]bool{}
 		for _, n := range names {
 			have[n] = true
+			if u.Buckets[n] == nil {
+				r.closeCrashEnv(env, dir)
+				r.fail("crash.acked", "a bucket that was never acknowledged appears after a kill ("+crashClass(cp)+") "+r.bctx(), strings.Join(bucketNamesOf(u), ","), cp.where+": "+strconv.Quote(n))
+			}
 		}
 		var bns []string
 		for bn := range u.Buckets {
@@ -302,7 +307,8 @@ func (r *Run) examineCrashes() {
 				r.closeCrashEnv(env, dir)
 				sig := fmt.Sprintf("%s (%s) %s", what, crashClass(cp), r.bctx())
 				if cl == "crash.atomic" {
-					sig = fmt.Sprintf("%s %s", what, r.bctx()) // one finding per backend class, wherever the kill lands
+					// one finding per backend class and kind of operation, wherever the kill lands
+					sig = fmt.Sprintf("%s (in-flight %s) %s", what, inflightKind(cp), r.bctx())
 				}
 				r.fail(cl, sig,
 					fmt.Sprintf("%s/%q = %s or %s", bn, kn, descEnt(ePre), descEnt(ePost)), fmt.Sprintf("%s: read %s, listed %q", cp.where, ks, listed[kn]))
@@ -315,6 +321,28 @@ func (r *Run) examineCrashes() {
 			r.ok("crash.atomic")
 		}
 	}
+}
+
+func bucketNamesOf(s *model.Store) []string {
+	var out []string
+	for n := range s.Buckets {
+		out = append(out, n)
+	}
+	sort.Strings(out)
+	return out
+}
+
+func inflightKind(cp *crashPoint) string {
+	if cp.op == nil {
+		return "none"
+	}
+	switch strings.Fields(cp.op.desc)[0] {
+	case "put", "copy", "badput", "mpu-complete":
+		return "upload"
+	case "del", "delmulti":
+		return "delete"
+	}
+	return "bucket operation"
 }
 
 func descEnt(e *model.Entity) string {
